@@ -134,13 +134,51 @@ def gwf : E → Bool
     leftOk op x && opRight op ≤ lvl y && (if isAssignOp op then isTarget x else true) && gwf x && gwf y
   | .cond c x y => lvShort ≤ lvl c && lvAssign ≤ lvl x && lvAssign ≤ lvl y && gwf c && gwf x && gwf y
   | .comma l => decide (2 ≤ l.length) && gwfItems l
-  | .call f args => lvCall ≤ lvl f && gwfItems args
+  | .call f args => lvCall ≤ lvl f && gwf f && gwfItems args
   | .dot x _ => lvCall ≤ lvl x && gwf x
   | .index x y => lvCall ≤ lvl x && gwf x && gwf y
 /-- items of a comma list / of an argument list: `AssignmentExpression`s -/
 def gwfItems : List E → Bool
   | [] => true
   | a :: t => lvAssign ≤ lvl a && gwf a && gwfItems t
+end
+
+/-! ## the same grammar with `&&`, `||`, `??` read as associative operators
+
+`a && b && c` is derivable from `LogicalANDExpression : LogicalANDExpression && BitwiseORExpression` only as
+`(a && b) && c`.  A printer that writes the tree `a && (b && c)` without parentheses produces the same terminals; the
+two trees have the same meaning (`Props.C01.assoc_*`).  `gwfA` is `gwf` with the right operand of these three operators
+also allowed to be an application of the same operator. -/
+
+def isAssocOp : BOp → Bool
+  | .land | .lor | .nullish => true
+  | _ => false
+
+def sameOpNode (op : BOp) (y : E) : Bool :=
+  match y with
+  | .bin o _ _ => o == op
+  | _ => false
+
+def rightOkA (op : BOp) (y : E) : Bool := opRight op ≤ lvl y || (isAssocOp op && sameOpNode op y)
+
+mutual
+def gwfA : E → Bool
+  | .var _ => true
+  | .lit _ => true
+  | .group x => gwfA x
+  | .unary op x =>
+    (if isUpdateOp op then isTarget x && (op == .preinc || op == .predec || lvLHS ≤ lvl x) else true)
+      && lvUnary ≤ lvl x && gwfA x
+  | .bin op x y =>
+    leftOk op x && rightOkA op y && (if isAssignOp op then isTarget x else true) && gwfA x && gwfA y
+  | .cond c x y => lvShort ≤ lvl c && lvAssign ≤ lvl x && lvAssign ≤ lvl y && gwfA c && gwfA x && gwfA y
+  | .comma l => decide (2 ≤ l.length) && gwfAItems l
+  | .call f args => lvCall ≤ lvl f && gwfA f && gwfAItems args
+  | .dot x _ => lvCall ≤ lvl x && gwfA x
+  | .index x y => lvCall ≤ lvl x && gwfA x && gwfA y
+def gwfAItems : List E → Bool
+  | [] => true
+  | a :: t => lvAssign ≤ lvl a && gwfA a && gwfAItems t
 end
 
 /-! ## terminals -/
@@ -187,5 +225,14 @@ end
 def Derives (p : Nat) (ts : List Tok) (e : E) : Prop := gwf e = true ∧ p ≤ lvl e ∧ yield e = ts
 
 instance (p : Nat) (ts : List Tok) (e : E) : Decidable (Derives p ts e) := by unfold Derives; infer_instance
+
+/-- the level test of a derivation in a context that demands level `p`: the operands of `??` (`p = lvBitOr`) may be
+    `??` expressions themselves (`CoalesceExpressionHead`) -/
+def levelOk (p : Nat) (e : E) : Bool := p ≤ lvl e || (p == lvBitOr && sameOpNode .nullish e)
+
+/-- derivation in the grammar with associative `&&`, `||`, `??` -/
+def DerivesA (p : Nat) (ts : List Tok) (e : E) : Prop := gwfA e = true ∧ levelOk p e = true ∧ yield e = ts
+
+instance (p : Nat) (ts : List Tok) (e : E) : Decidable (DerivesA p ts e) := by unfold DerivesA; infer_instance
 
 end Verif.Spec.JsGrammar
